@@ -43,14 +43,10 @@ func (f *Lcm) Call(s *slip.Scope, args slip.List, depth int) slip.Object {
 	z := big.NewInt(1)
 	var g big.Int
 	for _, a := range args {
-		num, ok := a.(slip.Fixnum)
-		if !ok {
-			slip.TypePanic(s, depth, "integers", a, "fixnum")
+		n := integerMagnitude(s, a, depth)
+		if n.Sign() == 0 {
+			return slip.Fixnum(0)
 		}
-		if num == 0 {
-			return num
-		}
-		n := new(big.Int).Abs(big.NewInt(int64(num)))
 		g.GCD(nil, nil, z, n)
 		z.Mul(z.Quo(z, &g), n)
 	}
